@@ -381,7 +381,7 @@ class Analysis:
                 if callee_unsafe and not is_unsafe_fn:
                     self.sites += 1
                     key = "%s|unsafe-call|%s" % (fn, name)
-                    self.unsafe_raw[key] = {"fn": fn, "where": where, "callee": name, "chain": who(),
+                    self.unsafe_raw[key] = {"fn": fn, "where": where, "callee": name, "chain": who(), "arg_idx": list(unb), "nargs": len(args),
                                             "detail": "unsafe callee %s receives caller-supplied value(s) %s that no dominating comparison bounds" % (name, [tstr(args[i])[:60] for i in unb])}
                 targets = self.resolve(t)
                 for callee in targets:
